@@ -10,7 +10,7 @@
 (*   compiler runs),   or   SPHEvaluator(arrays, equations, ...) up to the *)
 (*   same point:                                                           *)
 (*   [api       : "compiler" | "evaluator",                                *)
-(*    structure : "flat" | "group" | "nested" | "multistage",              *)
+(*    structure : "flat" | "group" | "nested" | "iterated" | "multistage"  *)
 (*    arrays    : Seq([name, props]),   props = names of ALL properties    *)
 (*                                      and constants of that array        *)
 (*    eqs       : Seq([name,            the class name of the equation     *)
@@ -236,7 +236,7 @@ Stages(c) ==
     LET n == Len(c.eqs)
     IN CASE c.structure = "flat" -> <<[i \in 1 .. n |-> EqN(i)]>>
          [] c.structure = "group" -> <<[i \in 1 .. n |-> GrN(<<EqN(i)>>)]>>
-         [] c.structure = "nested" ->
+         [] c.structure \in {"nested", "iterated"} ->   \* (iterated group)
                 <<<<GrN([i \in 1 .. n |-> GrN(<<EqN(i)>>)])>>>>
          [] c.structure = "multistage" ->
                 [i \in 1 .. n |-> IF i % 2 = 1 THEN <<EqN(i)>>
